@@ -56,7 +56,7 @@ def main():
                     demo = os.path.join(d, demos[0])
                     build, run = demo_cmds(demo, name)
                     res["demo_build"] = build
-                    m = re.search(r"/tmp/seed2?_C\d+", (build or "") + " " + (run or ""))
+                    m = re.search(r"/tmp/seed\d?_C\d+", (build or "") + " " + (run or ""))
                     if build and m:
                         for which, tree in (("mut", wt), ("clean", clean)):
                             exe = "/tmp/seedconf_demo_%s_%s" % (name, which)
